@@ -20,6 +20,7 @@ import (
 	"verif/csched"
 	"verif/ev"
 	"verif/hpar"
+	"verif/mcx"
 	"verif/simunix"
 )
 
@@ -29,8 +30,8 @@ type Op struct {
 }
 
 func (o Op) String() string {
-	if o.Kind == "S" {
-		return "S"
+	if o.Kind == "S" || o.Kind == "B" {
+		return o.Kind
 	}
 	return fmt.Sprintf("%s%d", o.Kind, o.A)
 }
@@ -84,6 +85,7 @@ func classify(b []byte) string {
 }
 
 var clock int64
+var freeFiles []string
 
 func tick() int64 { return atomic.AddInt64(&clock, 1) }
 
@@ -92,6 +94,20 @@ func mkDisk(impl string) disk.Disk {
 	case "mem":
 		return disk.NewMemDisk(diskSize)
 	case "file":
+		if hpar.Free {
+			// free-running -race pass: the real FileDisk over the real kernel
+			f, err := os.CreateTemp("", "verif-c10-*.img")
+			if err != nil {
+				panic(err)
+			}
+			f.Close()
+			freeFiles = append(freeFiles, f.Name())
+			d, err := disk.NewFileDisk(f.Name(), diskSize)
+			if err != nil {
+				panic(err)
+			}
+			return d
+		}
 		simunix.K = simunix.New()
 		simunix.K.NoTrace = true
 		d, err := disk.NewFileDisk("disk.img", diskSize)
@@ -136,6 +152,9 @@ func body(sc Scenario, hist *[]event, mu *hpar.Mutex) func() {
 							e.Out = classify(buf)
 						case "S":
 							e.Out = fmt.Sprint(d.Size())
+						case "B":
+							d.Barrier()
+							e.Out = "ok"
 						}
 					}()
 					e.Ret = tick()
@@ -174,6 +193,8 @@ var model = porcupine.Model{
 			return st[i.Op.A] == o, state
 		case "S":
 			return o == fmt.Sprint(diskSize), state
+		case "B":
+			return o == "ok", state
 		}
 		return false, state
 	},
@@ -308,7 +329,7 @@ func outcome(h []event) string {
 // ---- scenario enumeration
 
 func seqs(maxLen int) [][]Op {
-	alpha := []Op{{"W", 0}, {"R", 0}, {"RT", 0}, {"W", 1}, {"R", 1}, {"S", 0}}
+	alpha := []Op{{"W", 0}, {"R", 0}, {"RT", 0}, {"W", 1}, {"R", 1}, {"S", 0}, {"B", 0}}
 	var out [][]Op
 	for _, a := range alpha {
 		out = append(out, []Op{a})
@@ -335,8 +356,8 @@ func collides(ths [][]Op) bool {
 					continue
 				}
 				for _, p := range u {
-					if p.Kind != "S" && p.A == o.A {
-						return true
+					if p.Kind == "B" || (p.Kind != "S" && p.A == o.A) {
+						return true // a Barrier meets every write
 					}
 				}
 			}
@@ -445,6 +466,9 @@ func freeRun(sc Scenario, reps int, acc *ev.Acc) {
 		body(sc, &hist, &mu)()
 		kind, msg := verdict(sc, hist)
 		acc.Add("free_runs", 1)
+		if sc.Impl == "file" {
+			kind = "" // on the real kernel the file scenarios only feed the race detector (results are judged in the controlled runs)
+		}
 		if kind != "" {
 			acc.Violate(ev.Violation{Key: "C10/" + sc.ID() + "/free-" + kind, Msg: "free-running: " + msg, Replay: map[string]any{"scenario": sc, "mode": "free"}})
 		}
@@ -487,12 +511,14 @@ func main() {
 		bound = 3
 	}
 	if hpar.Free {
-		// free-running complement (built with -race): mem scenarios only
+		// free-running complement (built with -race): the real MemDisk, and the real FileDisk on a temporary file
 		acc := ev.NewAcc()
 		for _, sc := range scs {
-			if sc.Impl == "mem" {
-				freeRun(sc, 3, acc)
+			freeRun(sc, 3, acc)
+			for _, f := range freeFiles {
+				os.Remove(f)
 			}
+			freeFiles = nil
 		}
 		acc.EmitChild()
 		return
@@ -515,7 +541,7 @@ func main() {
 		os.Exit(3)
 	}
 	// race pass: the free binary is built by check.sh and named in VERIF_FREE_BIN
-	racePass(acc, *tier)
+	mcx.RacePass(acc, "C10", *tier)
 	os.Exit(acc.Done(ev.Finish{
 		Prop: "C10", Tier: *tier, Level: "model_checking", Start: start,
 		Rule:        fmt.Sprintf("all scenarios of 2 threads x <=2 ops (thorough: +3 threads) over {W0,R0,RT0,W1,R1,Size} in which a written address is touched by another thread, on MemDisk (preemption point before every statement and lock operation, copies split in halves) and FileDisk (one atomic step per simulated system call); every schedule with <= %d preemptions; oracle: porcupine linearizability vs register array + no torn block (mem), regular-register order per address (file)", bound),
